@@ -108,6 +108,15 @@ def canary_text(built):
         if e is None:
             continue
         a_, b_ = toks[k].b, toks[e].a
+        # `hide(f);` directives must stay the first statements of the body
+        kk = k + 1
+        while kk + 4 < len(toks) and toks[kk].s == "hide" and toks[kk + 1].s == "(":
+            c2 = rtok.match_close(toks, kk + 1)
+            if c2 + 1 < len(toks) and toks[c2 + 1].s == ";":
+                a_ = toks[c2 + 1].b
+                kk = c2 + 2
+            else:
+                break
         seg2 = seg[:a_] + " let r__ = {" + seg[a_:b_] + "}; proof { assert(false); } r__ " + seg[b_:]
         lines[l0 - 1:l1] = seg2.split("\n")
         marks.append((fn["label"], l0, l1))
@@ -172,8 +181,13 @@ def run_unit(name, outdir, tier, canaries=True):
                     if l0 <= d["line"] <= l1:
                         failed_fns.add((lab, l0))
         vac = [lab for (lab, l0, l1) in marks if (lab, l0) not in failed_fns]
+        tool = [d for d in cres["diagnostics"] if d["class"] != "obligation"]
         rec["canaries"] = {"run": True, "functions": [m[0] for m in marks], "vacuous": vac, "wall_s": cres["wall_s"]}
-        if vac:
+        if vac and tool:
+            # the canary copy itself did not go through the verifier: nothing can be concluded from it
+            rec["status"] = "undecided"
+            rec["reason"] = "canary copy not checkable (%s: %s)" % (tool[0]["class"], tool[0]["message"][:120])
+        elif vac:
             rec["status"] = "undecided"
             rec["reason"] = "canary verified (contradictory preconditions or assumed spec?) in: %s" % vac
     rec["wall_s"] = time.time() - t0
